@@ -236,15 +236,34 @@ func checkGeneratorGetsCallersPassphrase(c *Ctx, rule string) {
 		return
 	}
 	n := 0
-	for _, ci := range callsOf(fn) {
-		call, ok := ci.(*ssa.Call)
-		if !ok || call.Call.IsInvoke() || call.Call.StaticCallee() != nil || len(call.Call.Args) == 0 {
-			continue
+	// the generator call: a call of a function value, in newSecretKey or in a private part that is handed the passphrase
+	// (a small state object holding the generator)
+	var visit func(f *ssa.Function, prm *ssa.Parameter, depth int)
+	visit = func(f *ssa.Function, prm *ssa.Parameter, depth int) {
+		for _, ci := range callsOf(f) {
+			call, ok := ci.(*ssa.Call)
+			if !ok || call.Parent() != f || call.Call.IsInvoke() || len(call.Call.Args) == 0 {
+				continue
+			}
+			if h := call.Call.StaticCallee(); h != nil {
+				if depth < 2 && len(h.Blocks) > 0 && h.Object() != nil && !h.Object().Exported() && fnPkgPath(h) == fnPkgPath(fn) && len(h.Params) == len(call.Call.Args) {
+					for ai, a := range call.Call.Args {
+						if stripConv(a) == ssa.Value(prm) {
+							visit(h, h.Params[ai], depth+1)
+						}
+					}
+				}
+				continue
+			}
+			if _, isBuiltin := call.Call.Value.(*ssa.Builtin); isBuiltin {
+				continue
+			}
+			n++
+			c.Check(rule, "generator-gets-callers-passphrase", call.Pos(), stripConv(call.Call.Args[0]) == ssa.Value(prm),
+				"newSecretKey derives the new master key from something other than the passphrase it was given (a trimmed or otherwise normalised copy): creation and verification disagree, the exact passphrase is refused and a near miss accepted")
 		}
-		n++
-		c.Check(rule, "generator-gets-callers-passphrase", call.Pos(), stripConv(call.Call.Args[0]) == ssa.Value(fn.Params[0]),
-			"newSecretKey derives the new master key from something other than the passphrase it was given (a trimmed or otherwise normalised copy): creation and verification disagree, the exact passphrase is refused and a near miss accepted")
 	}
+	visit(fn, fn.Params[0], 0)
 	c.Floor(rule, "generator calls in newSecretKey", n, 1)
 }
 
@@ -358,8 +377,22 @@ func checkNextIndexBumpedOnItsOwnBranch(c *Ctx, rule string) {
 						continue
 					}
 					k, isK := constInt(bo.Y)
-					prm, isP := stripConv(bo.X).(*ssa.Parameter)
-					if !isK || !isP || prm.Name() != "branch" {
+					// the branch: a parameter of that name, or that field of a struct the function is handed
+					isBranch := false
+					switch x := stripConv(bo.X).(type) {
+					case *ssa.Parameter:
+						isBranch = x.Name() == "branch"
+					default:
+						if _, f, _, okf := fieldOf(x); okf && f == "branch" {
+							isBranch = true
+						}
+						if u, isU := x.(*ssa.UnOp); isU && u.Op == token.MUL {
+							if _, f, _, okf := fieldOf(u.X); okf && f == "branch" {
+								isBranch = true
+							}
+						}
+					}
+					if !isK || !isBranch {
 						continue
 					}
 					// which edge of d leads to x
@@ -562,4 +595,155 @@ func checkKeySlotGetsItsOwnClass(c *Ctx, rule string) {
 		}
 	}
 	c.Floor(rule, "class-named slots written from class-named parameters", n, 4)
+}
+
+// constBoolVia: the constant a boolean argument has at a call — directly, or when the call sits in a private forwarding
+// part (`f(ns, sel) { return g(ns, sel.a, sel.b) }`) and `outer` is a call of that part: the field of the struct value
+// the outer call hands over, read from a local literal or from the initialiser of a package-level variable.
+func (p *Program) constBoolVia(arg ssa.Value, outer ssa.CallInstruction) (bool, bool) {
+	arg = stripConv(arg)
+	if b, ok := constBool(arg); ok {
+		return b, true
+	}
+	if outer == nil {
+		return false, false
+	}
+	var prm *ssa.Parameter
+	fieldIdx := -1
+	switch x := arg.(type) {
+	case *ssa.Parameter:
+		prm = x
+	case *ssa.Field:
+		prm, _ = x.X.(*ssa.Parameter)
+		fieldIdx = x.Field
+	case *ssa.UnOp:
+		if fa, ok := x.X.(*ssa.FieldAddr); ok && x.Op == token.MUL {
+			fieldIdx = fa.Field
+			switch y := fa.X.(type) {
+			case *ssa.Parameter:
+				prm = y
+			case *ssa.Alloc:
+				// a by-value struct parameter spilled to the stack
+				if isParamSpill(y) {
+					for _, st := range storesTo(y) {
+						if q, ok := st.Val.(*ssa.Parameter); ok {
+							prm = q
+						}
+					}
+				}
+			}
+		}
+	}
+	if prm == nil {
+		return false, false
+	}
+	i := paramIndex(prm.Parent(), prm)
+	args := outer.Common().Args
+	if i < 0 || i >= len(args) {
+		return false, false
+	}
+	a := stripConv(args[i])
+	if fieldIdx < 0 {
+		return constBool(a)
+	}
+	// the struct value handed over: a load of a variable
+	var holder ssa.Value
+	if u, ok := a.(*ssa.UnOp); ok && u.Op == token.MUL {
+		holder = u.X
+	} else {
+		holder = a // pointer parameter: the variable's address itself
+	}
+	var stores []*ssa.Store
+	switch h := holder.(type) {
+	case *ssa.Alloc:
+		for _, u := range usesOf(h) {
+			if fa, ok := u.(*ssa.FieldAddr); ok && fa.Field == fieldIdx {
+				for _, uu := range usesOf(fa) {
+					if st, ok := uu.(*ssa.Store); ok && st.Addr == ssa.Value(fa) {
+						stores = append(stores, st)
+					}
+				}
+			}
+		}
+	case *ssa.Global:
+		if init := h.Pkg.Func("init"); init != nil {
+			for _, b := range init.Blocks {
+				for _, ins := range b.Instrs {
+					st, ok := ins.(*ssa.Store)
+					if !ok {
+						continue
+					}
+					if fa, ok := st.Addr.(*ssa.FieldAddr); ok && fa.X == ssa.Value(h) && fa.Field == fieldIdx {
+						stores = append(stores, st)
+					}
+				}
+			}
+		}
+		// a package-level variable written anywhere else is not a constant
+		for _, fn := range p.FuncsIn(shortPkg(h.Pkg.Pkg.Path())) {
+			if fn.Name() == "init" {
+				continue
+			}
+			for _, b := range fn.Blocks {
+				for _, ins := range b.Instrs {
+					if st, ok := ins.(*ssa.Store); ok {
+						if st.Addr == ssa.Value(h) {
+							return false, false
+						}
+						if fa, ok := st.Addr.(*ssa.FieldAddr); ok && fa.X == ssa.Value(h) {
+							return false, false
+						}
+					}
+				}
+			}
+		}
+		if len(stores) == 0 {
+			// a field left out of the literal (or a zero-valued literal the compiler folded away) is false
+			return false, true
+		}
+	}
+	if len(stores) != 1 {
+		return false, false
+	}
+	return constBool(stores[0].Val)
+}
+
+// forwardedFlagSites: the call sites at which the flags of `target` are decided: its direct callers, and for a caller
+// that is a private part forwarding its own parameters, that part's callers (with the inner call).
+type flagSite struct {
+	Inner ssa.CallInstruction // the call of target
+	Outer ssa.CallInstruction // nil, or the call of the forwarding part
+}
+
+func (s flagSite) Decider() ssa.CallInstruction {
+	if s.Outer != nil {
+		return s.Outer
+	}
+	return s.Inner
+}
+
+func (p *Program) forwardedFlagSites(target *ssa.Function) []flagSite {
+	var out []flagSite
+	for _, cs := range p.callers(target) {
+		fw := cs.Parent()
+		forwards := false
+		if fw.Object() != nil && !fw.Object().Exported() && fw.Parent() == nil && fnPkgPath(fw) == fnPkgPath(target) {
+			for _, a := range cs.Common().Args {
+				if _, isBool := a.Type().Underlying().(*types.Basic); !isBool {
+					continue
+				}
+				if _, isK := stripConv(a).(*ssa.Const); !isK {
+					forwards = true
+				}
+			}
+		}
+		if !forwards {
+			out = append(out, flagSite{Inner: cs})
+			continue
+		}
+		for _, cs2 := range p.realCallers(fw) {
+			out = append(out, flagSite{Inner: cs, Outer: cs2})
+		}
+	}
+	return out
 }
